@@ -488,6 +488,84 @@ func (s *solo) macroGenerationRace() bool {
 	return true
 }
 
+// macroEarlyFinishRRC: the peer cancels one of its calls with
+// Finish(releaseResultCaps=true) while the implementation is running; the
+// implementation does not watch its context and returns results that carry
+// capabilities hosted by the Conn.  The Return then names exports whose
+// references the Finish has already given back: the export table must not
+// keep them (seeded defect C07-2; the random steps produce this history only
+// a few times per quick run).
+func (s *solo) macroEarlyFinishRRC() bool {
+	if s.closed || s.aborted || len(s.pq) > 10 {
+		return false
+	}
+	var ces []*connExport
+	for _, ce := range s.heldConnExports() {
+		if ce.local != nil {
+			ces = append(ces, ce)
+		}
+	}
+	ls := s.liveLocalHandles()
+	if len(ces) == 0 || len(ls) == 0 {
+		return false
+	}
+	ce := ces[s.rng.Intn(len(ces))]
+	uid := s.newUID()
+	c := rpcbench.NewContent(uid)
+	q := &peerQ{id: s.allocQID(), uid: uid, class: "direct", expectLC: ce.local,
+		target: &rpcbench.WTarget{Kind: "importedCap", Cap: ce.id}}
+	q.stream, q.seq = s.peerStream(q.target.RefKey() + fmt.Sprintf("@%d", ce.gen))
+	c.Stream, c.Seq = q.stream, q.seq
+	plan := &rpcbench.CallPlan{UID: uid, Behaviour: rpcbench.BehAckBlock}
+	used := map[int]bool{}
+	for n := s.rng.Range(1, 2); n > 0; n-- {
+		slot := s.rng.Intn(rpcbench.NumPtr)
+		if used[slot] {
+			continue
+		}
+		used[slot] = true
+		base := ls[s.rng.Intn(len(ls))]
+		var c2 *capnp.Client
+		if !s.do("AddRef for plan", func() { c2 = base.C.AddRef() }) {
+			return true
+		}
+		rc := rpcbench.ResCap{Slot: slot, ArgSlot: -1, Nested: s.rng.Chance(1, 4)}
+		if s.rng.Chance(1, 3) {
+			rc.Extra = s.rng.Intn(3)
+		}
+		rc.H = s.w.AddHandle(&rpcbench.Handle{C: c2, Label: fmt.Sprintf("plan-%x-local%d", uid, base.Local.N), Local: base.Local, Plan: uid, Who: "C"})
+		plan.ResCaps = append(plan.ResCaps, rc)
+	}
+	q.plan = s.w.Plan(plan)
+	settle := s.rng.Chance(3, 4)
+	s.step("macro early-finish-rrc: Call q%d uid=%x -> cap%d returning %d local caps; Finish(rrc) while it runs (settle=%v)", q.id, uid, ce.id, len(plan.ResCaps), settle)
+	s.sendPeerCall(q, &c)
+	if !s.pumpUntil("implementation of the early-finish call is running", func() bool {
+		o := s.w.Obs(uid)
+		return (o != nil && (o.Blocked || o.Done)) || q.ret != nil
+	}) {
+		return true
+	}
+	if q.ret != nil {
+		return true
+	}
+	s.sendPeerFinish(q, true)
+	if settle {
+		// the Finish is processed before the implementation returns
+		s.quiesce("early-finish-rrc: Finish processed")
+	}
+	plan.Release()
+	if !s.pumpUntil("Return of the early-finish call", func() bool { return q.ret != nil }) {
+		return true
+	}
+	if q.ret.RetKind == "results" {
+		s.count("early_finish_rrc_returns_with_caps", 1)
+	}
+	s.count("early_finish_rrc_rounds", 1)
+	s.quiesce("after early-finish-rrc")
+	return true
+}
+
 // ---------------------------------------------------------------------------
 // End of a history.
 
